@@ -116,6 +116,35 @@ Worlds ==
      importedChildClash |-> [root |-> File(<<URef("cm", "metre", "milli")>>, <<CImp("ic", "f1", "c"), MainUses("cm")>>, <<>>),
                              f1 |-> File(<<URef("cm", "metre", "centi")>>, <<Comp("c", "cm", "11", NoneS, NoneS, <<"k">>), CImp("k", "f2", "d")>>, <<Conn("c", "v", "k", "v")>>),
                              f2 |-> File(<<URef("cm", "metre", "kilo")>>, <<Comp("d", "cm", "22", NoneS, NoneS, <<>>)>>, <<>>)],
+     \* imported units that depend on library units over two levels; the deepest one shares its name with other units of the importer
+     deepUnitsClash |-> [root |-> File(<<URef("C", "volt", "milli"), UImp("iu", "f1", "rate")>>, <<Comp("main", "iu", "5", "C", NoneS, <<>>)>>, <<>>),
+                         f1 |-> File(<<URef("rate", "B", "kilo"), URef("B", "C", "micro"), URef("C", "second", "milli")>>, <<>>, <<>>)],
+     \* ... and the same through an imported component (the diamond: two libraries, each with its own C)
+     deepUnitsClash2 |-> [root |-> File(<<>>, <<CImp("i1", "f1", "c"), CImp("i2", "f2", "c")>>, <<>>),
+                          f1 |-> File(<<URef("rate", "B", "kilo"), URef("B", "C", "micro"), URef("C", "second", "milli")>>, <<Comp("c", "rate", "11", NoneS, NoneS, <<>>)>>, <<>>),
+                          f2 |-> File(<<URef("g", "D", "kilo"), URef("D", "C", "micro"), URef("C", "volt", "milli")>>, <<Comp("c", "g", "12", NoneS, NoneS, <<>>)>>, <<>>)],
+     \* round 4 (situations reported by a sub-agent on the unchanged tree)
+     \* imported units over library units that are equivalent to differently named units of the importer
+     equivChild |-> [root |-> File(<<URef("ms", "second", "milli"), UImp("iu", "f1", "rate")>>, <<Comp("main", "iu", "5", "ms", NoneS, <<>>)>>, <<>>),
+                     f1 |-> File(<<URef("rate", "msec", "kilo"), URef("msec", "second", "milli")>>, <<>>, <<>>)],
+     \* the de-clashed name of an imported child collides with a sibling of that child
+     siblingClash |-> [root |-> File(<<>>, <<CImp("ic", "f1", "top"), Comp("c", NoneS, "5", NoneS, NoneS, <<>>)>>, <<>>),
+                       f1 |-> File(<<>>, <<Comp("top", "second", "11", NoneS, NoneS, <<"c", "c_1">>), Comp("c", "second", "12", NoneS, NoneS, <<>>), Comp("c_1", "second", "13", NoneS, NoneS, <<>>)>>, <<>>)],
+     \* clashing units named only by a cn of a grandchild of the imported component
+     cnGrandchildClash |-> [root |-> File(<<URef("u", "volt", "milli")>>, <<CImp("ic", "f1", "c"), MainUses("u")>>, <<>>),
+                            f1 |-> File(<<URef("u", "second", "milli")>>, <<Comp("c", "second", "11", NoneS, NoneS, <<"k">>), Comp("k", "second", "12", NoneS, NoneS, <<"g">>), Comp("g", "second", "13", NoneS, "u", <<>>)>>, <<>>)],
+     \* a local child of the import placeholder uses the importer's u, the library has another u
+     localKidClash |-> [root |-> File(<<URef("u", "volt", "milli")>>, <<CImpK("ic", "f1", "c", <<"loc">>), Comp("loc", "u", "1", NoneS, NoneS, <<>>)>>, <<>>),
+                        f1 |-> File(<<URef("u", "second", "milli")>>, <<Comp("c", "u", "11", NoneS, NoneS, <<>>)>>, <<>>)],
+     \* imported units whose child units are imported by the library under a name the importer uses for other units
+     importedChildUnitsClash |-> [root |-> File(<<URef("base", "volt", "milli"), UImp("iu", "f1", "rate")>>, <<Comp("main", "iu", "5", "base", NoneS, <<>>)>>, <<>>),
+                                  f1 |-> File(<<URef("rate", "base", "kilo"), UImp("base", "f2", "b")>>, <<>>, <<>>), f2 |-> File(<<URef("b", "second", "milli")>>, <<>>, <<>>)],
+     \* a chain of component imports whose middle file only passes the component on; the importer connects a local variable to it
+     passedOn |-> [root |-> File(<<>>, <<CImp("i", "f1", "mid"), MainUses("second")>>, <<Conn("main", "v", "i", "v")>>),
+                   f1 |-> File(<<>>, <<CImp("mid", "f2", "src")>>, <<>>), f2 |-> File(<<>>, <<Comp("src", "second", "11", NoneS, NoneS, <<>>)>>, <<>>)],
+     \* cascading renaming: the library has u and u_1, the importer another u
+     cascade |-> [root |-> File(<<URef("u", "volt", "milli")>>, <<CImp("ic", "f1", "c"), MainUses("u")>>, <<>>),
+                  f1 |-> File(<<URef("u", "second", "milli"), URef("u_1", "volt", "micro")>>, <<Comp("c", "u", "11", "u_1", NoneS, <<>>)>>, <<>>)],
      importedChild |-> [root |-> File(<<>>, <<CImp("ic", "f1", "c")>>, <<>>), f1 |-> File(<<>>, <<Comp("c", "metre", "11", NoneS, NoneS, <<"k">>), CImp("k", "f2", "d")>>, <<Conn("c", "v", "k", "v")>>),
                         f2 |-> File(<<URef("cm", "metre", "centi")>>, <<Comp("d", "cm", "22", NoneS, NoneS, <<>>)>>, <<>>)]]
 =============================================================================
